@@ -199,6 +199,8 @@ func stdPairings() []Pairing {
 		{Name: "Q10W7.cunary>rest.nobody", Client: wire.ConnectUnary, ClientCodec: "json", Method: "Pure", Target: wire.REST, TgtCodecs: []string{"json"}},
 		{Name: "Q10W7.grpcweb>rest.bodyfield", Client: wire.GRPCWeb, ClientCodec: "json", Method: "Idem", Target: wire.REST, TgtCodecs: []string{"json"}},
 		{Name: "Q2W6.grpc>connectstream.sstream.json", Client: wire.GRPC, ClientCodec: "proto", Method: "SStream", Target: wire.ConnectStream, TgtCodecs: []string{"json"}, NResp: 3},
+		{Name: "Q2W6.connect.proto.crc>grpc.json.crc", Client: wire.ConnectStream, ClientCodec: "proto", ClientComp: "crc", Accept: []string{"crc"}, Method: "Bidi", Target: wire.GRPC, TgtCodecs: []string{"json"}, TgtComp: []string{"crc"}, RespComp: "crc", NMsgs: 2, NResp: 2},
+		{Name: "Q5W6.cunary.json.crc>grpc.proto", Client: wire.ConnectUnary, ClientCodec: "json", ClientComp: "crc", Accept: []string{"crc"}, Method: "Unary", Target: wire.GRPC, TgtCodecs: []string{"proto"}, KnownCL: true},
 		{Name: "Q1W1.connect>grpcweb.gzip", Client: wire.ConnectStream, ClientCodec: "proto", ClientComp: "gzip", Accept: []string{"gzip"}, Method: "Bidi", Target: wire.GRPCWeb, TgtCodecs: []string{"proto"}, TgtComp: []string{"gzip"}, RespComp: "gzip", NMsgs: 2, NResp: 2},
 	}
 	for i := range ps {
